@@ -334,6 +334,9 @@ def check_aliases(ctx, rels):
             for node, t in class_level_stores(f.node, (f.cls.name,) if f.cls is not None else ()):
                 ctx.bad("instance-value-on-class:%s" % q.split(".", 1)[-1], "%s:%d" % (rel, node.lineno),
                         "%s stores a value computed from the instance on the class (`%s = ...`): all instances share the slot, so every other instance (another network, another key) finds the value of the one that filled it first" % (q, t))
+            for prm, node in shared_default_memos(f.node):
+                ctx.bad("default-argument-memo:%s:%s" % (q.split(".", 1)[-1], prm), "%s:%d" % (rel, node.lineno),
+                        "%s fills AND consults its default argument `%s` (one object shared by every call and every receiver) while reading self: what one call remembered from one object's state is handed to later calls, for another object or after the state changed" % (q, prm))
             for node, t in tests_after_replace(f.node):
                 ctx.bad("test-after-replace:%s" % q.split(".", 1)[-1], "%s:%d" % (rel, node.lineno),
                         "%s tests `%s` on a text from which that very string has just been replaced away: the test is always False, so what depends on it (restoring the original line ends, say) never happens" % (q, t))
@@ -606,4 +609,38 @@ def tests_after_replace(fn):
                 s_, r_ = t.args[0].value, t.args[1].value
                 if s_ == n.left.value and type(s_) is type(r_) and s_ not in r_:
                     out.append((n, ast.unparse(n)[:60]))
+    return out
+
+
+def shared_default_memos(fn):
+    """[(parameter, node)]: a parameter whose DEFAULT is a dict / list / set display (one object for every call and every receiver)
+    that the function both fills and consults, in a method that reads `self`: what one call computed from one object's state is
+    served to the next call, whatever object and whatever state it comes with"""
+    out = []
+    if not isinstance(fn, (ast.FunctionDef, ast.AsyncFunctionDef)):
+        return out
+    a = fn.args
+    pos = a.posonlyargs + a.args
+    defaults = dict(zip([x.arg for x in pos[len(pos) - len(a.defaults):]], a.defaults))
+    defaults.update({x.arg: d for x, d in zip(a.kwonlyargs, a.kw_defaults) if d is not None})
+    uses_self = any(isinstance(n, ast.Name) and n.id == "self" for n in ast.walk(fn))
+    for p, d in defaults.items():
+        if not isinstance(d, (ast.Dict, ast.List, ast.Set)) and not (isinstance(d, ast.Call) and ast.unparse(d.func) in _FRESH_CALLS):
+            continue
+        reads = writes = None
+        for n in ast.walk(fn):
+            if isinstance(n, ast.Subscript) and isinstance(n.value, ast.Name) and n.value.id == p:
+                if isinstance(n.ctx, ast.Load):
+                    reads = reads or n
+                else:
+                    writes = writes or n
+            elif isinstance(n, ast.Call) and isinstance(n.func, ast.Attribute) and isinstance(n.func.value, ast.Name) and n.func.value.id == p:
+                if n.func.attr in ("get", "__getitem__", "__contains__", "index", "count"):
+                    reads = reads or n
+                elif n.func.attr in MUTATORS:
+                    writes = writes or n
+            elif isinstance(n, ast.Compare) and any(isinstance(o, (ast.In, ast.NotIn)) for o in n.ops) and any(isinstance(c, ast.Name) and c.id == p for c in n.comparators):
+                reads = reads or n
+        if reads is not None and writes is not None and uses_self:
+            out.append((p, reads))
     return out
